@@ -28,7 +28,7 @@ ASSUMPTIONS = [
     "syndromes (sound together with the linearity monitor) plus random real executions",
     "pyModeS.common is the pure-Python module in this configuration; the C twin is covered by C15",
 ]
-REQUIRED = ["len56", "len112", "encode_true", "encode_false", "legacy", "contract_internal_crc"]
+REQUIRED = ["len56", "len112", "tail_text_echoed_in_payload", "encode_true", "encode_false", "legacy", "contract_internal_crc"]
 
 _state = {}
 
@@ -84,6 +84,8 @@ def m_exact(ctx, case):
     x = int(case["x"], 16)
     hx = _hex(x, n, case.get("case", "upper"))
     ctx.hit("len%d" % n)
+    if case.get("echo"):
+        ctx.hit("tail_text_echoed_in_payload")
     for enc in (False, True):
         exp = bits.polymod(x & ~0xFFFFFF if enc else x, n)
         fns = [("crc", s["py"].crc)]
@@ -300,6 +302,13 @@ def cases(ctx):
         n = rng.choice((56, 112))
         yield "exact", {"n": n, "x": "%X" % rng.getrandbits(n), "legacy": (k % 10 == 0),
                         "case": "lower" if k % 3 == 0 else "upper"}
+    # frames whose parity-field text also occurs inside the payload (a text-level operation on the tail must not touch it)
+    for k in range(ctx.share(6000 if quick else 60000)):
+        n = rng.choice((56, 112))
+        hx = "%0*X" % (n // 4, rng.getrandbits(n))
+        p0 = rng.randrange(0, n // 4 - 11)
+        hx = hx[:-6] + hx[p0:p0 + 6]
+        yield "exact", {"n": n, "x": hx, "legacy": (k % 10 == 0), "case": "lower" if k % 3 == 0 else "upper", "echo": 1}
     # --- closure / linearity
     for k in range(ctx.share(20000 if quick else 80000)):
         n = rng.choice((56, 112))
